@@ -30,6 +30,8 @@ func (p phase) String() string {
 		return "before-bestmove"
 	case engine.VsAfterBestmove:
 		return "after-bestmove"
+	case engine.VsInnerMoveDone:
+		return fmt.Sprintf("inside-rootmove(d=%d,k=%d)-after-first-reply", p.a, p.b)
 	}
 	return "?"
 }
@@ -137,7 +139,13 @@ func runSchedule(fen, goCmd string, at phase, cmds []string, holdMs int) schedRe
 		if point == engine.VsAfterBestmove {
 			exited <- struct{}{}
 		}
-		if point == at.point && (at.point != engine.VsRootMoveDone && at.point != engine.VsIterationDone || (a == at.a && (at.b < 0 || b == at.b))) {
+		match := false
+		if at.point == engine.VsInnerMoveDone {
+			match = point == engine.VsInnerMoveDone && a == at.a*1000+at.b && b == 1
+		} else {
+			match = point == at.point && (at.point != engine.VsRootMoveDone && at.point != engine.VsIterationDone || (a == at.a && (at.b < 0 || b == at.b)))
+		}
+		if match {
 			hit := false
 			once.Do(func() { hit = true })
 			if hit {
@@ -148,7 +156,7 @@ func runSchedule(fen, goCmd string, at phase, cmds []string, holdMs int) schedRe
 	}
 	engine.ParseInputLine("position fen " + fen)
 	before := engine.VerifSnapshot(engine.VerifCurrent().VerifTop())
-	if !timedCommand(goCmd, 2*time.Second) {
+	if !timedCommand(goCmd, 10*time.Second) {
 		res.blocked = append(res.blocked, goCmd)
 	}
 	select {
@@ -192,7 +200,12 @@ func runSchedule(fen, goCmd string, at phase, cmds []string, holdMs int) schedRe
 		case <-time.After(3 * time.Second):
 		}
 	}
-	time.Sleep(5 * time.Millisecond)
+	if res.finished {
+		// the line is written before the after-bestmove sync point fires; the collector goroutine may still be reading it
+		waitFor(oc, "bestmove", 1, 10*time.Second)
+		waitFor(oc, "readyok", res.expectedReady, time.Second)
+	}
+	time.Sleep(2 * time.Millisecond)
 	res.bestmoves = oc.count("bestmove")
 	res.readyoks = oc.count("readyok")
 	res.lines = oc.snapshot()
@@ -222,7 +235,7 @@ func runSchedule(fen, goCmd string, at phase, cmds []string, holdMs int) schedRe
 			deepest = d
 		}
 	}
-	if deepest == 0 && res.reached && (at.point == engine.VsIterationDone || at.point == engine.VsRootMoveDone && at.a >= 2 || at.point == engine.VsBeforeBestmove || at.point == engine.VsAfterBestmove) {
+	if deepest == 0 && res.reached && (at.point == engine.VsIterationDone || (at.point == engine.VsRootMoveDone || at.point == engine.VsInnerMoveDone) && at.a >= 2 || at.point == engine.VsBeforeBestmove || at.point == engine.VsAfterBestmove) {
 		deepest = 1 // the depth-1 iteration was completed (it is reported only in the final summary line)
 	}
 	res.deepest = deepest
@@ -268,6 +281,10 @@ func init() {
 		npos := intArg(args, 0, 3)
 		maxD := intArg(args, 1, 3)
 		maxK := intArg(args, 2, 3)
+		mode := "all"
+		if len(args) > 3 {
+			mode = args[3]
+		}
 		r := newRng(seedFromEnv() + 606)
 		fens := []string{
 			"r3k2r/p1ppqpb1/bn2pnp1/3PN3/1p2P3/2N2Q1p/PPPBBPPP/R3K2R w KQkq - 0 1",
@@ -282,6 +299,9 @@ func init() {
 			}
 		}
 		cmdSets := [][]string{{"stop"}, {"isready"}, {"stop", "stop"}, {"isready", "stop"}, {"stop", "isready"}}
+		if mode == "c11" {
+			cmdSets = [][]string{{"stop"}}
+		}
 		count := 0
 		for pi := 0; pi < npos && pi < len(fens); pi++ {
 			fen := fens[pi]
@@ -292,6 +312,16 @@ func init() {
 					phases = append(phases, phase{engine.VsRootMoveDone, d, k})
 				}
 				phases = append(phases, phase{engine.VsIterationDone, d, 0})
+			}
+			nroot := 0
+			if g, err := engine.NewGeneratorFromFen(fen); err == nil {
+				nroot = len(legalMoves(g))
+			}
+			for d := 2; d <= maxD && nroot > 1; d++ {
+				phases = append(phases, phase{engine.VsRootMoveDone, d, nroot - 1})
+				if mode != "c12" || d == 2 {
+					phases = append(phases, phase{engine.VsInnerMoveDone, d, 0}, phase{engine.VsInnerMoveDone, d, nroot - 1})
+				}
 			}
 			phases = append(phases, phase{engine.VsBeforeBestmove, 0, 0}, phase{engine.VsAfterBestmove, 0, 0})
 			for phi, ph := range phases {
@@ -314,15 +344,21 @@ func init() {
 					count++
 				}
 			}
-			// stop with no search ever started, and before any position
 			// deadline expiry placed at a phase: hold the search thread beyond its movetime budget
-			for d := 1; d <= maxD; d++ {
+			for d := 1; d <= maxD && mode != "c12"; d++ {
 				for k := 0; k < maxK; k += 2 {
 					printSched(runSchedule(fen, "go movetime 120", phase{engine.VsRootMoveDone, d, k}, nil, 130))
 					count++
 				}
 				printSched(runSchedule(fen, "go movetime 120", phase{engine.VsIterationDone, d, 0}, nil, 130))
 				count++
+				if d >= 2 && nrootOf(fen) > 1 {
+					// the deadline expires INSIDE the subtree of the first / of the last root move (after its first reply)
+					printSched(runSchedule(fen, "go movetime 120", phase{engine.VsInnerMoveDone, d, 0}, nil, 130))
+					printSched(runSchedule(fen, "go movetime 120", phase{engine.VsInnerMoveDone, d, nrootOf(fen) - 1}, nil, 130))
+					printSched(runSchedule(fen, "go movetime 120", phase{engine.VsRootMoveDone, d, nrootOf(fen) - 1}, nil, 130))
+					count += 3
+				}
 			}
 		}
 		fmt.Fprintf(os.Stderr, "STATS sched total=%d\n", count)
@@ -366,7 +402,9 @@ func init() {
 		r := newRng(seedFromEnv() + 1616)
 		var fens []string
 		fens = append(fens, corpusFens[:8]...)
-		for len(fens) < 30 {
+		fens = append(fens, "7k/5Q2/6K1/8/8/8/8/8 b - - 0 1", "8/8/8/8/8/6k1/5q2/7K w - - 0 1", "k7/P7/K7/8/8/8/8/8 b - - 0 1", "7k/6Q1/6K1/8/8/8/8/8 b - - 0 1",
+			"rnb1kbnr/pppp1ppp/8/4p3/6Pq/5P2/PPPPP2P/RNBQKBNR w KQkq - 1 3", "5k2/5P2/5K2/8/8/8/8/8 b - - 0 1", "6k1/5ppp/8/8/8/8/8/R3K3 w - - 0 1")
+		for len(fens) < 34 {
 			gm := playout(r, "startpos", 10+r.intn(120))
 			fens = append(fens, gm.fens[len(gm.fens)-1])
 		}
@@ -439,7 +477,11 @@ func init() {
 				}
 			}
 			problem := ""
+			expectedBest := 0
 			for _, c := range script {
+				if strings.HasPrefix(c, "go") {
+					expectedBest++
+				}
 				if strings.HasPrefix(c, "go infinite @") {
 					var d, k int
 					fmt.Sscanf(c, "go infinite @%d,%d", &d, &k)
@@ -462,6 +504,7 @@ func init() {
 						problem = "search did not end after stop"
 					}
 					holdOnce = nil
+					waitFor(oc, "bestmove", expectedBest, 10*time.Second)
 				} else if strings.HasPrefix(c, "go") {
 					engine.ParseInputLine(c)
 					select {
@@ -469,6 +512,7 @@ func init() {
 					case <-time.After(20 * time.Second):
 						problem = "no bestmove for " + c
 					}
+					waitFor(oc, "bestmove", expectedBest, 10*time.Second)
 				} else {
 					engine.ParseInputLine(c)
 				}
@@ -491,13 +535,14 @@ func init() {
 			var lateLines, freshLines []string
 			if problem == "" && !terminal {
 				n0 := len(oc.snapshot())
+				nb0 := oc.count("bestmove")
 				engine.ParseInputLine("go depth 2")
 				select {
 				case <-exited:
 				case <-time.After(20 * time.Second):
 					problem = "no bestmove for the probe search"
 				}
-				time.Sleep(3 * time.Millisecond)
+				waitFor(oc, "bestmove", nb0+1, 10*time.Second)
 				lateLines = oc.snapshot()[n0:]
 			}
 			engine.VerifSyncHook = nil
@@ -516,7 +561,7 @@ func init() {
 				case <-exited:
 				case <-time.After(20 * time.Second):
 				}
-				time.Sleep(3 * time.Millisecond)
+				waitFor(oc2, "bestmove", 1, 10*time.Second)
 				engine.VerifSyncHook = nil
 				freshLines = oc2.stop()
 				pick := func(ls []string) string {
@@ -554,4 +599,11 @@ func init() {
 		}
 		fmt.Fprintf(os.Stderr, "STATS queries total=%d bad=%d\n", trials, bad)
 	}
+}
+
+func nrootOf(fen string) int {
+	if g, err := engine.NewGeneratorFromFen(fen); err == nil {
+		return len(legalMoves(g))
+	}
+	return 0
 }
